@@ -27,6 +27,9 @@ type c16Case struct {
 	Placement string   `json:"placement"` // container-when | leaf-when | list-when | uses-when | augment-when | where | filter
 	Edit      bool     `json:"edit"`      // when placements: check an upsert instead of a read
 	Spaces    bool     `json:"spaces"`    // blanks around the operator
+	// Shape: how the expression reaches the operand leaf: "" = by its name; "prefixed" = gm:z; "nested" = h/z and
+	// "nested2" = h/g/z with the leaf inside containers; "nested-prefixed" = gm:h/gm:z
+	Shape string `json:"shape,omitempty"`
 }
 
 func c16Type(base string) *dm.Type {
@@ -105,7 +108,18 @@ func c16Expr(c c16Case) string {
 	if c.Spaces {
 		sp = " "
 	}
-	return "z" + sp + c.Op + sp + lit
+	path := "z"
+	switch c.Shape {
+	case "prefixed":
+		path = "gm:z"
+	case "nested":
+		path = "h/z"
+	case "nested2":
+		path = "h/g/z"
+	case "nested-prefixed":
+		path = "gm:h/gm:z"
+	}
+	return path + sp + c.Op + sp + lit
 }
 
 // eventNode serves a notification by sending one event per operand value.
@@ -125,7 +139,20 @@ func (e *eventNode) Notify(r node.NotifyRequest) (node.NotifyCloser, error) {
 func c16Run(c c16Case, o *hx.Obs) {
 	ty := c16Type(c.Base)
 	expr := c16Expr(c)
-	zLeaf := func() *dm.Node { return &dm.Node{Kind: "leaf", Name: "z", Type: ty} }
+	// the operand leaf, directly or inside the containers the path of the expression steps through
+	zLeaf := func() *dm.Node {
+		z := &dm.Node{Kind: "leaf", Name: "z", Type: ty}
+		switch c.Shape {
+		case "nested", "nested-prefixed":
+			return &dm.Node{Kind: "container", Name: "h", Children: []*dm.Node{z}}
+		case "nested2":
+			return &dm.Node{Kind: "container", Name: "h", Children: []*dm.Node{{Kind: "container", Name: "g", Children: []*dm.Node{z}}}}
+		}
+		return z
+	}
+	if c.Shape != "" {
+		o.Class("path=%s", c.Shape)
+	}
 	str := func(n string) *dm.Node { return &dm.Node{Kind: "leaf", Name: n, Type: &dm.Type{Base: "string"}} }
 	m := &dm.Module{Name: "gm"}
 	rows := len(c.Values)
@@ -172,7 +199,15 @@ func c16Run(c c16Case, o *hx.Obs) {
 	}
 	data, want := dm.Tree{}, dm.Tree{}
 	setZ := func(t dm.Tree, i int) {
-		if !c.Unset[i] {
+		if c.Unset[i] {
+			return
+		}
+		switch c.Shape {
+		case "nested", "nested-prefixed":
+			t["h"] = dm.Tree{"z": c.Values[i]}
+		case "nested2":
+			t["h"] = dm.Tree{"g": dm.Tree{"z": c.Values[i]}}
+		default:
 			t["z"] = c.Values[i]
 		}
 	}
@@ -241,7 +276,14 @@ func c16Run(c c16Case, o *hx.Obs) {
 			want["out"] = "x"
 		}
 	case "filter":
-		m.Extra = "notification ev { leaf z { " + typeYang(ty) + " } leaf seq { type int32; } }"
+		zy := "leaf z { " + typeYang(ty) + " }"
+		switch c.Shape {
+		case "nested", "nested-prefixed":
+			zy = "container h { " + zy + " }"
+		case "nested2":
+			zy = "container h { container g { " + zy + " } }"
+		}
+		m.Extra = "notification ev { " + zy + " leaf seq { type int32; } }"
 	}
 	// the model needs the augmented / used leaves too
 	modelRoot := m.Root()
@@ -433,7 +475,8 @@ var c16Bases = []string{"int8", "int16", "int32", "int64", "uint8", "uint16", "u
 
 func c16Gen(t *rapid.T) c16Case {
 	c := c16Case{Base: rapid.SampledFrom(c16Bases).Draw(t, "base"), Placement: rapid.SampledFrom([]string{"container-when", "leaf-when", "list-when", "list-when-where", "uses-when", "augment-when", "where", "where", "filter"}).Draw(t, "placement"),
-		Edit: rapid.IntRange(0, 3).Draw(t, "edit") == 0, Spaces: rapid.Bool().Draw(t, "spaces"), Quoted: rapid.IntRange(0, 3).Draw(t, "quoted") == 0}
+		Edit: rapid.IntRange(0, 3).Draw(t, "edit") == 0, Spaces: rapid.Bool().Draw(t, "spaces"), Quoted: rapid.IntRange(0, 3).Draw(t, "quoted") == 0,
+		Shape: rapid.SampledFrom([]string{"", "", "", "nested", "nested2"}).Draw(t, "shape")}
 	ops := []string{"=", "!=", "<", "<=", ">", ">="}
 	if c.Base == "boolean" || c.Base == "string" {
 		ops = []string{"=", "!="}
@@ -482,7 +525,7 @@ func c16Gen(t *rapid.T) c16Case {
 
 var c16Pred = hx.Register(&hx.Check[c16Case]{
 	Name: "c16-predicates",
-	Rule: "'<leaf> <op> <literal>' over operand leaves of every integer width, decimal64, string, boolean and enumeration; operators = != < <= > >=; operand unset, equal to the literal, a neighbour of it, or random (64-bit and unsigned extremes included); placed as when on a container, leaf, list (also read through a where= that holds for every row), uses and augment (checked on reads and on upserts), as where= on a list and as filter= on a notification stream; oracle = math/big / string / name comparison, false when the operand has no value; non-trivial = operand within 1 of the literal, unset, or non-numeric",
+	Rule: "'<path to a leaf> <op> <literal>' (the leaf by name, or one or two containers down; module prefixes are not part of the subset: the node package parses expressions without a prefix table and answers them with an error) over operand leaves of every integer width, decimal64, string, boolean and enumeration; operators = != < <= > >=; operand unset, equal to the literal, a neighbour of it, or random (64-bit and unsigned extremes included); placed as when on a container, leaf, list (also read through a where= that holds for every row), uses and augment (checked on reads and on upserts), as where= on a list and as filter= on a notification stream; oracle = math/big / string / name comparison, false when the operand has no value; non-trivial = operand within 1 of the literal, unset, or non-numeric",
 	Gen:  c16Gen,
 	Run:  c16Run,
 })
